@@ -764,10 +764,10 @@ class Scores:
             achieved and the EER value itself.
         """
         # We treat the case of perfect separation separately
-        if self.pos[0] >= self.neg[-1] and self.score_class == BinaryLabel.pos:
-            return (self.pos[0] + self.neg[-1]) / 2, 0.0
-        if self.pos[-1] <= self.neg[0] and self.score_class == BinaryLabel.neg:
-            return (self.pos[-1] + self.neg[0]) / 2, 0.0
+        if self.pos[0] > self.neg[-1] and self.score_class == BinaryLabel.pos:
+            return self._separating_threshold(self.neg[-1], self.pos[0]), 0.0
+        if self.pos[-1] < self.neg[0] and self.score_class == BinaryLabel.neg:
+            return self._separating_threshold(self.pos[-1], self.neg[0]), 0.0
 
         sign = -(self.threshold_at_fpr(0.0) - self.threshold_at_fnr(0.0))
 
@@ -808,6 +808,14 @@ class Scores:
         threshold = self.threshold_at_fpr(eer)
 
         return threshold, eer
+
+    def _separating_threshold(self, lower, upper):
+        """Threshold between two scores ``lower < upper`` of different classes."""
+        threshold = (lower + upper) / 2
+        if not lower < threshold < upper:  # Mid-point was rounded onto an end point
+            upper_side = self.score_class == self.equal_class
+            threshold = upper if upper_side else lower
+        return threshold
 
     def auc(
         self,
